@@ -844,6 +844,15 @@ func (fr *Frame) countCall(short string) {
 		}
 		fr.qualOrd[short]++
 	}
+	if vc.lastNames[short] {
+		// lastcall(Name): position of the most recent call on the path, by a path-wide event counter
+		vc.mapSort("$calls_$tick", "Int")
+		ln := "$calls_$last_" + strings.ReplaceAll(short, ".", "__")
+		vc.mapSort(ln, "Int")
+		t := sApp("+", vc.hget(fr.heap, "$calls_$tick"), "1")
+		vc.hset(&fr.heap, "$calls_$tick", t)
+		vc.hset(&fr.heap, ln, t)
+	}
 	if !vc.countNames[short] {
 		return
 	}
